@@ -11,6 +11,7 @@ import (
 	"time"
 
 	"github.com/philpearl/plenc"
+	"github.com/philpearl/plenc/plenccodec"
 	"github.com/philpearl/plenc/verifhook"
 )
 
@@ -84,6 +85,11 @@ type schedResult struct {
 // runScheduled runs the workers under the schedule. schedule[i] = the worker to
 // release at step i (if it is not parked, the lowest parked worker is released);
 // when the schedule is exhausted, workers run lowest-id-first.
+// stepInvariant, when set, is evaluated at every scheduling point (all workers
+// parked or blocked): it checks on the REAL shared state the invariant the Lean
+// protocol model proves for every reachable state. A non-empty result is a violation.
+var stepInvariant func() string
+
 func runScheduled(workers []func() string, schedule []int) schedResult {
 	s := &sched{gids: map[int64]int{}, parked: map[int]chan struct{}{}, where: map[int]schedEvent{},
 		arrive: make(chan int, len(workers)*4), done: map[int]bool{}, keyName: map[interface{}]string{}}
@@ -157,6 +163,12 @@ func runScheduled(workers []func() string, schedule []int) schedResult {
 				return res
 			}
 			continue
+		}
+		if stepInvariant != nil {
+			if msg := stepInvariant(); msg != "" {
+				res.panics = append(res.panics, fmt.Sprintf("invariant violated at step %d: %s", step, msg))
+				stepInvariant = nil
+			}
 		}
 		pick := cands[0]
 		if step < len(schedule) {
@@ -232,6 +244,62 @@ func workerFor(p *plenc.Plenc, rt reflect.Type, seed uint64) func() string {
 	}
 }
 
+// registryComplete checks (I1) of lean/Props/C07.lean on the real registry: every
+// codec reachable from a published entry is a complete struct codec or a non-struct codec.
+func registryComplete(p *plenc.Plenc) string {
+	seen := map[*plenccodec.StructCodec]bool{}
+	var walk func(c plenccodec.Codec) string
+	walk = func(c plenccodec.Codec) string {
+		switch c := c.(type) {
+		case *plenccodec.StructCodec:
+			if seen[c] {
+				return ""
+			}
+			seen[c] = true
+			if !c.VerifComplete() {
+				return "an incomplete struct codec for " + c.VerifName() + " is reachable from the shared registry"
+			}
+			for _, f := range c.VerifFields() {
+				if f.Codec == nil {
+					return "a struct codec with an unset field codec is reachable from the shared registry"
+				}
+				if m := walk(f.Codec); m != "" {
+					return m
+				}
+			}
+		case plenccodec.PointerWrapper:
+			return walk(c.Underlying)
+		case plenccodec.WTLengthSliceWrapper:
+			return walk(c.Underlying)
+		case plenccodec.ProtoSliceWrapper:
+			return walk(c.Underlying)
+		case plenccodec.WTVarIntSliceWrapper:
+			return walk(c.Underlying)
+		case plenccodec.WTFixedSliceWrapper:
+			return walk(c.Underlying)
+		case *plenccodec.MapCodec:
+			k, v := c.VerifKV()
+			if m := walk(k); m != "" {
+				return m
+			}
+			return walk(v)
+		case plenccodec.ProtoMapCodec:
+			k, v := c.VerifKV()
+			if m := walk(k); m != "" {
+				return m
+			}
+			return walk(v)
+		}
+		return ""
+	}
+	for _, c := range p.VerifRegistry() {
+		if m := walk(c); m != "" {
+			return m
+		}
+	}
+	return ""
+}
+
 // execSched: (sched family nthreads seed (schedule...)) → results and trace
 func execSched(s *Sexp) string {
 	fam := s.List[1].Atom
@@ -266,8 +334,13 @@ func execSched(s *Sexp) string {
 		_, ws := mk()
 		want = append(want, guard(ws[i]))
 	}
-	_, ws := mk()
+	pShared, ws := mk()
+	stepInvariant = func() string { return registryComplete(pShared) }
 	res := runScheduled(ws, schedule)
+	stepInvariant = nil
+	if m := registryComplete(pShared); m != "" {
+		res.panics = append(res.panics, "invariant violated at the end: "+m)
+	}
 	ok := "same"
 	for i := range want {
 		if res.results[i] != want[i] {
@@ -283,3 +356,90 @@ func execSched(s *Sexp) string {
 }
 
 var schedLastTrace string
+
+// ---- C19 concurrency: goroutines decode through ONE shared interned field --------
+
+type internHolder struct {
+	S string `plenc:"1,intern"`
+}
+
+// execInternSched: (internsched (reqs (xA xB) (xC …) …) (schedule…)): every goroutine
+// decodes its inputs through the same freshly built interned field under the
+// given schedule of the intern yield points. At every scheduling point the
+// published table must satisfy the model's invariant (every key maps to itself)
+// and must extend the previous one.
+func execInternSched(s *Sexp) string {
+	var reqs [][][]byte
+	for _, th := range s.List[1].List[1:] {
+		var ds [][]byte
+		for _, it := range th.List {
+			d, err := unhx(it.Atom)
+			if err != nil {
+				return "bad-op"
+			}
+			ds = append(ds, d)
+		}
+		reqs = append(reqs, ds)
+	}
+	var schedule []int
+	for _, it := range s.List[2].List {
+		n, _ := strconv.Atoi(it.Atom)
+		schedule = append(schedule, n)
+	}
+	p := &plenc.Plenc{}
+	p.RegisterDefaultCodecs()
+	cd, err := p.CodecForType(reflect.TypeOf(internHolder{}))
+	if err != nil {
+		return "builderr"
+	}
+	ic, ok := cd.(*plenccodec.StructCodec).VerifFields()[0].Codec.(*plenccodec.InternedStringCodec)
+	if !ok {
+		return "bad-op not interned"
+	}
+	results := make([][]string, len(reqs))
+	var ws []func() string
+	for i := range reqs {
+		i := i
+		ws = append(ws, func() string {
+			var outs []string
+			for _, d := range reqs[i] {
+				buf := append(refTag(1, 2), lenPrefixed(d)...)
+				var v internHolder
+				if err := p.Unmarshal(buf, &v); err != nil {
+					return "err"
+				}
+				for k := range buf {
+					buf[k] = 0xAA
+				}
+				results[i] = append(results[i], v.S)
+			}
+			for _, r := range results[i] {
+				outs = append(outs, hx([]byte(r)))
+			}
+			return strings.Join(outs, ",")
+		})
+	}
+	prev := map[string]string{}
+	stepInvariant = func() string {
+		tbl := ic.VerifTable()
+		for k, v := range tbl {
+			if k != v {
+				return fmt.Sprintf("intern table maps %q to %q", k, v)
+			}
+		}
+		for k := range prev {
+			if _, ok := tbl[k]; !ok {
+				return fmt.Sprintf("intern table lost the entry %q", k)
+			}
+		}
+		prev = tbl
+		return ""
+	}
+	res := runScheduled(ws, schedule)
+	stepInvariant = nil
+	schedLastTrace = traceString(res.trace)
+	if len(res.panics) > 0 {
+		return "PANIC " + strings.Join(res.panics, "; ")
+	}
+	return strings.Join(res.results, " | ")
+}
